@@ -26,7 +26,7 @@ from pyrtma.message_base import MessageBase
 try:  # only present in the CrossHair-enabled environment
     import z3
     from crosshair.libimpl import builtinslib as BL
-    from crosshair.tracers import NoTracing
+    from crosshair.tracers import NoTracing, ResumedTracing
 except Exception:  # pragma: no cover
     z3 = None
     BL = None
@@ -37,6 +37,19 @@ except Exception:  # pragma: no cover
 
         def __exit__(self, *a):
             return False
+
+    ResumedTracing = NoTracing  # type: ignore
+
+
+def _traced(fn):
+    """CrossHair's patched setattr()/getattr() builtins call the target with tracing switched off; the store model
+    operates on symbolic values, so its accessors switch tracing back on for their own body."""
+
+    def w(*a):
+        with ResumedTracing():
+            return fn(*a)
+
+    return w
 
 
 INT_TYPES = {
@@ -275,7 +288,7 @@ def _char_array_prop(key, n):
         else:
             self.__dict__[key] = v
 
-    return property(get, set_)
+    return property(_traced(get), _traced(set_))
 
 
 def _char_prop(key):
@@ -293,7 +306,7 @@ def _char_prop(key):
             return
         raise TypeError("one character bytes, bytearray or integer expected")
 
-    return property(get, set_)
+    return property(_traced(get), _traced(set_))
 
 
 def _scalar_prop(key, conv):
@@ -303,7 +316,7 @@ def _scalar_prop(key, conv):
     def set_(self, v):
         self.__dict__[key] = conv(v)
 
-    return property(get, set_)
+    return property(_traced(get), _traced(set_))
 
 
 def _struct_prop(key, sc):
@@ -315,7 +328,7 @@ def _struct_prop(key, sc):
             raise TypeError("expected %s instance, got %s" % (sc.__name__, type(v).__name__))
         self.__dict__[key]._shadow_copy_from(v)
 
-    return property(get, set_)
+    return property(_traced(get), _traced(set_))
 
 
 def _array_prop(key, n):
@@ -331,7 +344,7 @@ def _array_prop(key, n):
             return
         raise TypeError("expected array instance of length %d, got %s" % (n, type(v).__name__))
 
-    return property(get, set_)
+    return property(_traced(get), _traced(set_))
 
 
 def _struct_conv(sc):
@@ -481,6 +494,9 @@ class PayloadBuf:
 
     def __init__(self, **vals):
         self.vals = dict(vals)
+
+    def __len__(self):
+        return 1024 ** 2
 
     def materialise(self, c):
         o = c()
